@@ -285,6 +285,29 @@ class C10Monitor(X.Monitor):
                     ctx.violate("C10", "kept_exactly", "filtering ego-frame objects gives another result with transforms=%s (%s, %s)" % (label, fn, rec["site"]),
                                 {"with_frame_transforms": len(out), "alternative": len(alt)}, st.index)
                 ctx.probe("c10_transform_free_probes")
+        # confidence is a criterion for estimates only: a ground truth that carries a score of its own (pseudo-labels, re-used
+        # detections) below the confidence bound of its label must not take its result away.  The loader always stamps 1.0, so
+        # the recorded input is replayed with the scores of the paired ground truths lowered for the duration of the call.
+        if fn == "filter_object_results" and base.get("confidence_threshold_list") is not None:
+            gts = {id(r.ground_truth_object): r.ground_truth_object for r in inputs if r.ground_truth_object is not None}
+            saved = {k: g.semantic_score for k, g in gts.items()}
+            if gts:
+                try:
+                    for g in gts.values():
+                        g.semantic_score = 0.0
+                    try:
+                        low = orig(list(inputs), **base)
+                    finally:
+                        for k, g in gts.items():
+                            g.semantic_score = saved[k]
+                except Exception as e:  # noqa
+                    ctx.violate("C10", "kept_exactly", "filtering results whose ground truth carries a score raised %s" % type(e).__name__, {}, st.index)
+                else:
+                    if _ids(low) != _ids(out):
+                        ctx.violate("C10", "kept_exactly", "the confidence bound is applied to the ground truth of a result: lowering the ground "
+                                    "truths' own scores changes filter_object_results (%s)" % rec["site"],
+                                    {"kept": len(out), "kept_with_scored_ground_truth": len(low)}, st.index)
+                    ctx.probe("c10_scored_gt_probes")
         # widening: every numeric bound relaxed, one at a time and all together
         widen = {
             "max_x_position_list": lambda v: [x * 1.5 + 1.0 for x in v],
